@@ -105,6 +105,94 @@ def sorting_helper(repo: Repo, fi: FuncInfo, it: ast.AST) -> bool:
     return len(rets) == 1 and bool(pat.match(f"sorted({a}, key=$K)", rets[0].value))
 
 
+_SET_OPS = (ast.Sub, ast.BitOr, ast.BitAnd, ast.BitXor)
+_ORDER_FREE_CONSUMERS = {"set", "frozenset", "sorted", "any", "all", "sum", "len", "min", "max"}
+_ORDER_CARRYING = {"append", "extend", "insert", "add", "connect", "disconnect", "setdefault", "update", "write", "flatname", "join"}
+
+
+def _all_defs(fn: ast.AST) -> Dict[str, List[ast.AST]]:
+    defs: Dict[str, List[ast.AST]] = {}
+    for n in ast.walk(fn):
+        if isinstance(n, ast.Assign) and len(n.targets) == 1 and isinstance(n.targets[0], ast.Name):
+            defs.setdefault(n.targets[0].id, []).append(n.value)
+        elif isinstance(n, ast.AnnAssign) and isinstance(n.target, ast.Name) and n.value is not None:
+            defs.setdefault(n.target.id, []).append(n.value)
+    return defs
+
+
+def set_typed(e: ast.AST, defs: Dict[str, List[ast.AST]], depth: int = 0) -> bool:
+    """The expression is (a re-listing of) a set built in this function: its iteration order is hash order."""
+    if depth > 5:
+        return False
+    if isinstance(e, (ast.Set, ast.SetComp)):
+        return True
+    if isinstance(e, ast.Call):
+        f = e.func
+        if isinstance(f, ast.Name) and f.id in ("set", "frozenset"):
+            return True
+        if isinstance(f, ast.Name) and f.id in ("list", "tuple", "iter", "reversed", "enumerate") and e.args:
+            return set_typed(e.args[0], defs, depth + 1)
+        if isinstance(f, ast.Attribute) and f.attr in ("union", "intersection", "difference", "symmetric_difference", "copy"):
+            return set_typed(f.value, defs, depth + 1)
+        return False
+    if isinstance(e, ast.BinOp) and isinstance(e.op, _SET_OPS):
+        def view(x):
+            return isinstance(x, ast.Call) and isinstance(x.func, ast.Attribute) and x.func.attr in ("keys", "items") and not x.args
+        return set_typed(e.left, defs, depth + 1) or set_typed(e.right, defs, depth + 1) or view(e.left) or view(e.right)
+    if isinstance(e, ast.Name):
+        return any(set_typed(v, defs, depth + 1) for v in defs.get(e.id, []))
+    return False
+
+
+def local_set_iterations(fn: ast.AST) -> List[Tuple[ast.AST, str, str]]:
+    """(node, iterated expression, how the order escapes) for each iteration over a locally built set whose
+    order can reach an ordered result.  Order-free consumers (set/sorted/any/all/sum/len/min/max, set
+    comprehensions, loop bodies without accumulating calls, stores or yields) are not listed."""
+    defs = _all_defs(fn)
+    par = au.parents(fn)
+    out = []
+    for n in ast.walk(fn):
+        if isinstance(n, (ast.ListComp, ast.DictComp, ast.GeneratorExp)):
+            hit = [g.iter for g in n.generators if set_typed(g.iter, defs)]
+            if not hit:
+                continue
+            up = par.get(n)
+            if isinstance(n, ast.GeneratorExp) and isinstance(up, ast.Call) and isinstance(up.func, ast.Name) and up.func.id in _ORDER_FREE_CONSUMERS:
+                continue
+            if isinstance(n, ast.ListComp) and isinstance(up, ast.Call) and isinstance(up.func, ast.Name) and up.func.id in _ORDER_FREE_CONSUMERS:
+                continue
+            out.append((n, ast.unparse(hit[0]), f"the {type(n).__name__} keeps the set's iteration order"))
+        elif isinstance(n, ast.For) and set_typed(n.iter, defs):
+            how = None
+            for b in n.body:
+                for x in ast.walk(b):
+                    if isinstance(x, ast.Call) and isinstance(x.func, ast.Attribute) and x.func.attr in _ORDER_CARRYING and not set_typed(x.func.value, defs):
+                        how = how or f"`{ast.unparse(x)[:50]}` in the loop body accumulates in iteration order"
+                    if isinstance(x, (ast.Yield, ast.YieldFrom)):
+                        how = how or "the loop yields in iteration order"
+                    if isinstance(x, (ast.Assign, ast.AugAssign)):
+                        tg = x.targets[0] if isinstance(x, ast.Assign) else x.target
+                        if isinstance(tg, ast.Subscript) and not set_typed(tg.value, defs):
+                            how = how or f"`{ast.unparse(x)[:50]}` inserts keys in iteration order"
+            if how:
+                out.append((n, ast.unparse(n.iter), how))
+        elif isinstance(n, ast.Starred) and set_typed(n.value, defs) and isinstance(par.get(n), ast.Call):
+            up = par[n]
+            if not (isinstance(up.func, ast.Name) and up.func.id in _ORDER_FREE_CONSUMERS):
+                out.append((n, ast.unparse(n.value), "the set is unpacked into positional arguments in iteration order"))
+    return out
+
+
+_POSITIVE_SAMPLE = """
+def sample(m, series):
+    par = set(m.ports.values()) - set(series)
+    conns = {p.name: p for p in par}
+    ok = all(p.name for p in par)
+    names = sorted(p.name for p in par)
+    return conns
+"""
+
+
 def check(repo: Repo, R) -> None:
     rule = "C12.1-set-iteration-order-not-observable"
     sets = set_attributes(repo)
@@ -154,6 +242,56 @@ def check(repo: Repo, R) -> None:
                 bad = any(t in txt for t in ("id(", "hash(", "repr("))
                 k += 1
                 R.check(not bad, rule2, key_of(fi, ast.unparse(c)[:50]), fi.at(c), f"`{ast.unparse(c)[:90]}`: sort key does not use addresses or hashes: {not bad}", why="the imposed order itself differs between processes")
+    # the order imposed on a set of port references must be total on what distinguishes them: (instance name, port name)
+    tot = 0
+    for fi in repo.funcs_in("hdl21/"):
+        for c in au.calls_in(fi.node, nested=True):
+            if not (isinstance(c.func, ast.Name) and c.func.id == "sorted" and c.args):
+                continue
+            src = c.args[0]
+            from_set = _iter_source(src, sets)[0] == "_connected_ports"
+            if not from_set and isinstance(src, ast.Name) and fi.node.args.args and src.id == fi.node.args.args[0].arg:
+                # a sorting helper: look at what its call sites pass
+                for g in repo.funcs_in("hdl21/"):
+                    for cc in au.calls_in(g.node, nested=True):
+                        if cc.args and repo.resolve_call(cc, g) is fi and _iter_source(cc.args[0], sets)[0] == "_connected_ports":
+                            from_set = True
+            if not from_set:
+                continue
+            tot += 1
+            key = {x.arg: x.value for x in c.keywords}.get("key")
+            parts: Set[str] = set()
+            if isinstance(key, ast.Lambda) and len(key.args.args) == 1:
+                v = key.args.args[0].arg
+                elts = key.body.elts if isinstance(key.body, ast.Tuple) else [key.body]
+                for e in elts:
+                    if isinstance(e, ast.BoolOp) and isinstance(e.op, ast.Or):
+                        e = e.values[0]
+                    t = ast.unparse(e)
+                    if t == f"{v}.inst.name":
+                        parts.add("inst")
+                    if t == f"{v}.portname":
+                        parts.add("port")
+            ok = parts == {"inst", "port"}
+            R.check(ok, rule2, key_of(fi, "portref-sort-total"), fi.at(c), f"`{ast.unparse(c)[:90]}` orders a hash-ordered set of port references; the key distinguishes every pair of them (instance name: {'inst' in parts}, port name: {'port' in parts})",
+                    why="two ports of one instance fed by the same bundle tie under the key; `sorted` is stable, so their relative order is the set's hash order again and the connection order in the package changes between processes")
+    if tot < 1:
+        raise AnalysisError("anchor-vanished: no sort over a set of port references found")
+    # ---- no hash-ordered local set leaks its order
+    rule4 = "C12.4-no-local-set-order-leaks"
+    pos = local_set_iterations(ast.parse(_POSITIVE_SAMPLE).body[0])
+    if len(pos) != 1 or "DictComp" not in pos[0][2]:
+        raise AnalysisError(f"self-check failed: the local-set iteration rule finds {len(pos)} sites in its positive sample (expected exactly the dict comprehension)")
+    nf = 0
+    for prefix in ("hdl21/", "pdks/"):
+        for fi in repo.funcs_in(prefix):
+            if "/tests/" in fi.file.rel or "/test_" in fi.file.rel or "/scripts/" in fi.file.rel:
+                continue
+            nf += 1
+            for node, it, how in local_set_iterations(fi.node):
+                R.bad(rule4, key_of(fi, f"iter-{it[:40]}"), fi.at(node), f"`{it}` is a set built in this function and is iterated without an order being imposed: {how}",
+                      "the order of connections / ports / names built from it follows str or address hashes, and changes with PYTHONHASHSEED")
+    R.ok(rule4, "hdl21+pdks::all-functions", "hdl21/, pdks/", f"{nf} functions scanned: no list, dict, generator, loop accumulation or *-unpacking takes its order from a set built in the function (the rule finds exactly the seeded site in its built-in positive sample)", nontrivial=True)
     # ---- names never derive from addresses / salted hashes
     rule3 = "C12.3-names-independent-of-addresses"
     producers = [(F_BASE, "ElabPass.flatname"), (F_PARAMS, "_unique_name"), (F_PARAMS, "hdl21_naming_encoder"), (F_QUALNAME, "qualname"), (F_QUALNAME, "qualpath"),
